@@ -1,10 +1,10 @@
 (* Extraction of the executable C16 model (ExtrOcamlBasic only). *)
 From Coq Require Import ExtrOcamlBasic.
 From Coq Require Extraction.
-From LJT Require Import gen.GenIccConst model.MarkerRT model.Icc model.CopyMarkers model.TjHeader model.MarkerSuspend model.CopyMulti model.MarkerSeq model.MarkerTrace.
+From LJT Require Import gen.GenIccConst model.MarkerRT model.Icc model.CopyMarkers model.TjHeader model.MarkerSuspend model.CopyMulti model.MarkerSeq model.MarkerTrace model.MarkerScan.
 Extraction Language OCaml.
 Extraction "x_c16.ml" write_icc read_icc read_icc_fast marker_is_icc markers_of saved_of write_marker write_markers
   jpeg_save_markers cfg_init read_header read_app_markers hinfo_init
   emit_sof get_sof emit_sos get_sos emit_dri get_dri emit_jfif_app0 emit_adobe_app14 emit_file_header
   sof_code sof_flags decide_colorspace copy_setup copy_execute copy_pipeline
-  tj_setup_option tj_execute_option tj_transform_extras history_cfg copy_pipeline_from trace_marker mapi_run tj_transform_multi_bytes tj_bufsize_icc tj_transform_multi jpeg_write_marker_api jpeg_write_icc_profile_api read_file read_marker_seq apply_markers emit_dqt susp_header susp_run hstate_init header_of get_subsamp tj_factors.
+  tj_setup_option tj_execute_option tj_transform_extras history_cfg copy_pipeline_from scan_header first_marker next_marker_full trace_marker mapi_run tj_transform_multi_bytes tj_bufsize_icc tj_transform_multi jpeg_write_marker_api jpeg_write_icc_profile_api read_file read_marker_seq apply_markers emit_dqt susp_header susp_run hstate_init header_of get_subsamp tj_factors.
